@@ -22,7 +22,9 @@ def kws_fn(eng, name):
 def run(ck):
     ck.bounds = dict(stack='arbitrary robot (oracle), 3 answers per inverse call', verdicts='arbitrary per answer (oracle)')
     ck.assumptions += ['what collides() answers is C10; what the stack answers is C01-C09']
-    for meth in list(INVERSES) + ['forward', 'forward_with_joint_poses', 'kinematic_singularity', 'constraints']:
+    for meth in list(INVERSES) + ['forward', 'forward_with_joint_poses', 'kinematic_singularity', 'constraints'] + [m_ + '#sentinel' for m_ in INVERSES if INVERSES[m_] and INVERSES[m_][0] == 'previous']:
+        # '#sentinel': the previous position is the CONSTRAINT_CENTERED marker (all NaN): it must reach the stack as it is
+        sentinel = meth.endswith('#sentinel'); meth = meth.split('#')[0]
         eng = ck.engine(unwind=6); install_collections(eng); install_dynkin(eng)
         st = eng.new_state()
         cell = eng.tmp_ref(st, 0, Opaque('limits-of-stack')); stack = DynKin('stack', nsol=3, cons_ref=cell)
@@ -33,14 +35,14 @@ def run(ck):
         if len(cn) != 1: raise Inconclusive('RobotBody::collides not found')
         eng.overrides[cn[0]] = collides
         w = Agg([BoxV([stack]), Opaque('body')], 'kinematics_with_shape::KinematicsWithShape'); rw = eng.tmp_ref(st, 0, w)
-        tcp = free_pose('tcp'); joints = Agg([F(z3.Real(f'q{i}')) for i in range(6)]); prev = Agg([F(z3.Real(f'prev{i}')) for i in range(6)]); j6 = F(z3.Real('j6arg'))
+        tcp = free_pose('tcp'); joints = Agg([F(z3.Real(f'q{i}')) for i in range(6)]); prev = Agg([F_NAN()] + [fconst(0)] * 5) if sentinel else Agg([F(z3.Real(f'prev{i}')) for i in range(6)]); j6 = F(z3.Real('j6arg'))
         if meth in ('forward', 'forward_with_joint_poses', 'kinematic_singularity'): args = [rw, eng.tmp_ref(st, 0, joints)]
         elif meth == 'constraints': args = [rw]
         elif meth == 'inverse': args = [rw, eng.tmp_ref(st, 0, tcp)]
         elif meth == 'inverse_5dof': args = [rw, eng.tmp_ref(st, 0, tcp), j6]
         else: args = [rw, eng.tmp_ref(st, 0, tcp), eng.tmp_ref(st, 0, prev)]
         res = eng.call_body(st, method_body(eng, 'KinematicsWithShape', meth), args)
-        label = f'KinematicsWithShape::{meth}: '
+        label = f"KinematicsWithShape::{meth}{' [previous = CONSTRAINT_CENTERED]' if sentinel else ''}: "
         case = lambda m=None: dict(clause='entry', method=meth)
         if len(res) != 1:
             ck.decide(label + f'single result state ({len(res)})', eng, [], z3.BoolVal(True), case, nomodel_case=case); continue
